@@ -1,0 +1,156 @@
+//! C06 (relay connection registry) verification hooks.
+//!
+//! Constructors for a server-side connection [`Config`] and a matching
+//! client end over an in-memory duplex pipe (what the unit tests in
+//! `server/clients.rs` build with `cfg(test)`-only helpers), a read-only
+//! snapshot of the registry, and the per-connection pause point that sits
+//! between the end of a connection actor's run loop and its `unregister`.
+#![cfg(feature = "server")]
+
+use std::time::Duration;
+
+use iroh_base::EndpointId;
+use n0_future::{SinkExt, StreamExt};
+use tokio::io::DuplexStream;
+
+use crate::{
+    KeyCache,
+    http::ProtocolVersion,
+    protos::{
+        relay::{ClientToRelayMsg, MAX_FRAME_SIZE, RelayToClientMsg},
+        streams::WsBytesFramed,
+    },
+    server::{
+        ConnectionId, OnDisconnectGuard,
+        client::Config,
+        clients::Clients,
+        Metrics,
+        streams::RelayedStream,
+    },
+};
+
+/// A server-side connection [`Config`] over an in-memory pipe, ready to be registered.
+pub struct PendingConn {
+    config: Config<WsBytesFramed<DuplexStream>>,
+}
+
+impl PendingConn {
+    /// Calls the real [`Clients::register`] with this connection.
+    pub fn register(self, clients: &Clients, metrics: std::sync::Arc<Metrics>) {
+        clients.register(self.config, metrics);
+    }
+}
+
+/// Numeric value of a [`ConnectionId`] (its `Display` form).
+pub fn conn_num(id: ConnectionId) -> u64 {
+    id.to_string().parse().unwrap()
+}
+
+/// Name of the per-connection pause point before `Clients::unregister`.
+pub fn before_unregister_point(conn: u64) -> String {
+    format!("relay.actor.before_unregister.{conn}")
+}
+
+/// Pause point between the end of the actor's run loop and `unregister`.
+pub async fn before_unregister(conn: ConnectionId) {
+    super::sched::pause(&before_unregister_point(conn_num(conn))).await;
+}
+
+/// Builds the server-side [`Config`] for one connection of `endpoint_id`
+/// over `io`, like `test_client_builder` in the unit tests.
+pub fn server_config(
+    endpoint_id: EndpointId,
+    io: DuplexStream,
+    protocol_version: ProtocolVersion,
+    channel_capacity: usize,
+) -> (PendingConn, ConnectionId) {
+    let guard = OnDisconnectGuard::empty(endpoint_id);
+    let conn = guard.connection_id();
+    let ws = tokio_websockets::ServerBuilder::new()
+        .limits(tokio_websockets::Limits::default().max_payload_len(Some(MAX_FRAME_SIZE)))
+        .serve(io);
+    let stream = RelayedStream::new(WsBytesFramed { io: ws }, KeyCache::new(0));
+    let mut config = Config::new(guard, stream, protocol_version);
+    config.write_timeout = Duration::from_secs(1);
+    config.channel_capacity = channel_capacity;
+    (PendingConn { config }, conn)
+}
+
+/// The client end of a harness-built connection.
+pub struct ClientEnd {
+    conn: WsBytesFramed<DuplexStream>,
+    key_cache: KeyCache,
+    protocol_version: ProtocolVersion,
+}
+
+impl ClientEnd {
+    pub fn new(io: DuplexStream, protocol_version: ProtocolVersion) -> Self {
+        Self {
+            conn: WsBytesFramed {
+                io: tokio_websockets::ClientBuilder::new()
+                    .limits(
+                        tokio_websockets::Limits::default().max_payload_len(Some(MAX_FRAME_SIZE)),
+                    )
+                    .take_over(io),
+            },
+            key_cache: KeyCache::new(0),
+            protocol_version,
+        }
+    }
+
+    /// Next frame from the relay; `None` at end of stream, `Some(Err)` on a stream or decode error.
+    pub async fn recv(&mut self) -> Option<Result<RelayToClientMsg, String>> {
+        match self.conn.next().await {
+            None => None,
+            Some(Err(e)) => Some(Err(format!("{e:#}"))),
+            Some(Ok(bytes)) => Some(
+                RelayToClientMsg::from_bytes(bytes, &self.key_cache, self.protocol_version)
+                    .map_err(|e| format!("{e:#}")),
+            ),
+        }
+    }
+
+    /// Closes the client's sending direction with a websocket close frame
+    /// (the relay's read loop then sees the end of the stream); frames the
+    /// relay already wrote can still be received.
+    pub async fn close(&mut self) -> Result<(), String> {
+        self.conn
+            .io
+            .send(tokio_websockets::Message::close(None, ""))
+            .await
+            .map_err(|e| format!("{e:#}"))
+    }
+
+    /// Sends one frame to the relay and flushes.
+    pub async fn send(&mut self, msg: ClientToRelayMsg) -> Result<(), String> {
+        self.conn
+            .send(msg.to_bytes().freeze())
+            .await
+            .map_err(|e| format!("{e:#}"))
+    }
+}
+
+/// Registry contents: per endpoint id `(id, active, inactive in Vec order)`, and the
+/// `sent_to` map; both sorted by endpoint id bytes.
+pub fn snapshot(
+    clients: &Clients,
+) -> (
+    Vec<(EndpointId, u64, Vec<u64>)>,
+    Vec<(EndpointId, Vec<EndpointId>)>,
+) {
+    let (reg, sent) = clients.verif_snapshot();
+    let mut reg: Vec<_> = reg
+        .into_iter()
+        .map(|(id, a, ina)| (id, conn_num(a), ina.into_iter().map(conn_num).collect()))
+        .collect();
+    reg.sort_by_key(|e| *e.0.as_bytes());
+    let mut sent: Vec<_> = sent
+        .into_iter()
+        .map(|(id, mut peers)| {
+            peers.sort_by_key(|p| *p.as_bytes());
+            (id, peers)
+        })
+        .collect();
+    sent.sort_by_key(|e| *e.0.as_bytes());
+    (reg, sent)
+}
